@@ -12,26 +12,38 @@ struct ConstPool_Node* g_hit;            /* ghost: the node Tree::get may find (
 struct ConstPool_Gap* g_gap[7];          /* ghost: the gap (if any) at the head of each size class on entry */
 uint64_t g_size0, g_align0, g_gapoff[7]; uint8_t g_hasgap[7];
 uint64_t g_req_size;                     /* ghost: the size of the current request (binds the tree contracts to the call) */
-#define VERIF_GHOST_INIT() (__CPROVER_havoc_object(&g_hit), __CPROVER_havoc_object(g_gap), __CPROVER_havoc_object(&g_size0), __CPROVER_havoc_object(&g_align0), \
+#define VERIF_GHOST_INIT() (g_gapcnt = 0, g_nodecnt = 0, __CPROVER_havoc_object(&g_hit), __CPROVER_havoc_object(g_gap), __CPROVER_havoc_object(&g_size0), __CPROVER_havoc_object(&g_align0), \
    __CPROVER_havoc_object(g_gapoff), __CPROVER_havoc_object(g_hasgap), __CPROVER_havoc_object(&g_req_size))
 
 /* ---- assumed contracts of the callees that are not lowered here -------------------------------------------------- */
 #define CONTRACT_ConstPool_Tree_get \
   __CPROVER_requires(data != NULL) \
   __CPROVER_assigns() \
-  __CPROVER_ensures(__CPROVER_return_value == NULL || (__CPROVER_return_value == g_hit && self->_data_size == g_req_size))
+  /* pointer_in_range gives the returned pointer its object (CBMC resolves dereferences by value sets, not by equalities) */ \
+  __CPROVER_ensures(__CPROVER_return_value == NULL || (__CPROVER_pointer_in_range_dfcc(g_hit, __CPROVER_return_value, g_hit) && self->_data_size == g_req_size))
 #define CONTRACT_ConstPool_Tree_insert \
   __CPROVER_requires(node != NULL)   /* the tree links the node in: inserting NULL dereferences it */ \
   __CPROVER_assigns(self->_size, __CPROVER_object_whole(node)) \
   __CPROVER_ensures(self->_size == __CPROVER_old(self->_size) + 1)
+/* allocators hand out distinct records of two ghost pools (one object each instead of one object per call: CBMC's object table is small) */
+#define GAPPOOL_N 24
+#define NODEPOOL_N 20
+struct c_node_slot { struct ConstPool_Node n; uint8_t data[64]; };
+struct ConstPool_Gap g_gappool[GAPPOOL_N]; unsigned g_gapcnt;
+struct c_node_slot g_nodepool[NODEPOOL_N]; unsigned g_nodecnt;
 #define CONTRACT_ConstPool_Tree_new_node_t \
-  __CPROVER_requires(data != NULL && size >= 1 && size <= 64) \
-  __CPROVER_assigns() \
-  __CPROVER_ensures(__CPROVER_return_value == NULL || (__CPROVER_is_fresh(__CPROVER_return_value, sizeof(struct ConstPool_Node) + 64) && \
+  __CPROVER_requires(data != NULL && size >= 1 && size <= 64 && g_nodecnt < NODEPOOL_N) \
+  __CPROVER_assigns(g_nodecnt, g_nodepool[g_nodecnt]) \
+  __CPROVER_ensures(__CPROVER_return_value == NULL ? g_nodecnt == __CPROVER_old(g_nodecnt) : \
+     (g_nodecnt == __CPROVER_old(g_nodecnt) + 1 && __CPROVER_pointer_in_range_dfcc(&g_nodepool[0].n, __CPROVER_return_value, &g_nodepool[NODEPOOL_N - 1].n) && \
+      __CPROVER_return_value == &g_nodepool[__CPROVER_old(g_nodecnt)].n && \
       __CPROVER_return_value->_offset == (uint32_t)offset && __CPROVER_return_value->_shared == shared))
 #define CONTRACT_Arena_alloc_oneshot_ConstPool_Gap_ \
-  __CPROVER_assigns() \
-  __CPROVER_ensures(__CPROVER_return_value == NULL || __CPROVER_is_fresh(__CPROVER_return_value, sizeof(struct ConstPool_Gap)))
+  __CPROVER_requires(g_gapcnt < GAPPOOL_N) \
+  __CPROVER_assigns(g_gapcnt) \
+  __CPROVER_ensures(__CPROVER_return_value == NULL ? g_gapcnt == __CPROVER_old(g_gapcnt) : \
+     (g_gapcnt == __CPROVER_old(g_gapcnt) + 1 && __CPROVER_pointer_in_range_dfcc(&g_gappool[0], __CPROVER_return_value, &g_gappool[GAPPOOL_N - 1]) && \
+      __CPROVER_return_value == &g_gappool[__CPROVER_old(g_gapcnt)]))
 
 /* ---- pool invariant (entry) --------------------------------------------------------------------------------------- */
 #define GAP_PRE(self, i) \
@@ -96,9 +108,10 @@ static inline int c_add_post(const struct ConstPool* p, uint64_t size, uint64_t 
   GAP_PRE(self, 0) GAP_PRE(self, 1) GAP_PRE(self, 2) GAP_PRE(self, 3) GAP_PRE(self, 4) GAP_PRE(self, 5) GAP_PRE(self, 6) \
   __CPROVER_requires(self->_gap_pool == NULL || __CPROVER_is_fresh(self->_gap_pool, sizeof(struct ConstPool_Gap))) \
   __CPROVER_requires(self->_gap_pool == NULL || self->_gap_pool->_next == NULL) \
+  __CPROVER_requires(g_gapcnt == 0 && g_nodecnt == 0) \
   __CPROVER_requires(c_pool_pre(self) && g_req_size == size && (!c_size_valid(size) || c_hit_ok(self, size))) \
   __CPROVER_requires(size <= VERIF_MAXCONST || size > 64) \
-  __CPROVER_assigns(*self, *offset_out._val) \
+  __CPROVER_assigns(*self, *offset_out._val, g_gapcnt, g_nodecnt, __CPROVER_object_whole(g_gappool), __CPROVER_object_whole(g_nodepool)) \
   __CPROVER_assigns(self->_gaps[0] != NULL: __CPROVER_object_whole(self->_gaps[0])) __CPROVER_assigns(self->_gaps[1] != NULL: __CPROVER_object_whole(self->_gaps[1])) \
   __CPROVER_assigns(self->_gaps[2] != NULL: __CPROVER_object_whole(self->_gaps[2])) __CPROVER_assigns(self->_gaps[3] != NULL: __CPROVER_object_whole(self->_gaps[3])) \
   __CPROVER_assigns(self->_gaps[4] != NULL: __CPROVER_object_whole(self->_gaps[4])) __CPROVER_assigns(self->_gaps[5] != NULL: __CPROVER_object_whole(self->_gaps[5])) \
